@@ -211,6 +211,38 @@ ref::File buildFile(const std::vector<Op> &ops, FileInfo *info) {
         p.locked = o.arg(13) % 2 != 0;
         params.push_back(p);
     }
+    // ---- exhaustive enumerations (C12) ----
+    auto floatPattern = [](unsigned long long i) -> uint32_t {
+        // sign x 256 exponents x 7 mantissa classes
+        uint32_t sign = static_cast<uint32_t>(i & 1), ex = static_cast<uint32_t>((i >> 1) & 0xFF);
+        unsigned m = static_cast<unsigned>((i >> 9) % 7);
+        static const uint32_t mant[4] = {0u, 1u, 0x400000u, 0x7FFFFFu};
+        uint32_t mm;
+        if (m < 4) mm = mant[m]; else { Rng r(i * 2654435761ULL + m); mm = static_cast<uint32_t>(r.next()) & 0x7FFFFFu; }
+        return (sign << 31) | (ex << 23) | mm;
+    };
+    for (const Op &o : ops) {
+        if (o.code == "fenumbyte") {
+            ref::Rec p; p.id = pointId; p.name = "ENUMBYTE"; p.type = 1; p.dims = {16, 16};
+            for (int v = 0; v < 256; ++v) p.raw.push_back(static_cast<uint8_t>(v));
+            params.push_back(p); I.tags.insert("enum-byte-all-256");
+        } else if (o.code == "fenumint") {
+            long long blk = absmod(o.arg(0), 4);
+            ref::Rec p; p.id = pointId; p.name = "ENUMINT" + std::to_string(blk); p.type = 2; p.dims = {128, 128};
+            for (int v = 0; v < 16384; ++v) rawInt(p.raw, static_cast<int>(blk * 16384 + v));
+            params.push_back(p); I.tags.insert("enum-int-block-" + std::to_string(blk));
+        } else if (o.code == "fenumflt") {
+            unsigned long long start = static_cast<unsigned long long>(absmod(o.arg(0), 1LL << 40));
+            ref::Rec p; p.id = pointId; p.name = "ENUMFLT"; p.type = 4; p.dims = {32, 112};
+            for (unsigned long long v = 0; v < 3584; ++v) rawFloat(p.raw, floatPattern(start + v));
+            params.push_back(p); I.tags.insert("enum-float-param");
+        } else if (o.code == "fevtenum") {
+            unsigned long long start = static_cast<unsigned long long>(absmod(o.arg(0), 1LL << 40));
+            f.h.nEvents = 18;
+            for (unsigned i = 0; i < 18; ++i) { f.h.evTime[i] = floatPattern(start + i); for (int k = 0; k < 4; ++k) f.h.evLabel[i][k] = static_cast<char>('A' + (i + k) % 26); }
+            I.tags.insert("enum-float-events");
+        }
+    }
     // ---- record order ----
     long long orderSeed = 0, orderMode = 0;
     if (const Op *o = findOp(ops, "forder")) { orderSeed = o->arg(0); orderMode = absmod(o->arg(1), 3); }
@@ -228,6 +260,11 @@ ref::File buildFile(const std::vector<Op> &ops, FileInfo *info) {
     Rng dr(vseed ^ 0xABCDEFu);
     f.data.resize(nF * (4 * nP + nC * nSub));
     for (auto &v : f.data) v = genFloatBits(dr);
+    if (const Op *o = findOp(ops, "fdataenum")) {
+        unsigned long long start = static_cast<unsigned long long>(absmod(o->arg(0), 1LL << 40));
+        for (size_t i = 0; i < f.data.size(); ++i) f.data[i] = floatPattern(start + i);
+        I.tags.insert("enum-float-data");
+    }
     // ---- DATA_START: the real first data block ----
     {
         std::vector<uint8_t> tmp = ref::encode(f);
@@ -269,6 +306,7 @@ std::vector<uint8_t> fileBytesOf(const std::vector<Op> &ops, FileInfo *info, boo
             const ref::FieldLoc &fl = fields[idx[static_cast<size_t>(absmod(o.arg(0), static_cast<long long>(idx.size())))]];
             unsigned long long v = static_cast<unsigned long long>(o.arg(1));
             for (size_t k = 0; k < fl.size && k < 4; ++k) {
+                if (fl.off + k >= b.size()) break;     // the file was truncated before this field
                 uint8_t nb = static_cast<uint8_t>((v >> (8 * k)) & 0xFF);
                 if (b[fl.off + k] != nb) { if (corrupted) *corrupted = true; if (metaCorrupted) *metaCorrupted = true; }
                 b[fl.off + k] = nb;
